@@ -1668,8 +1668,8 @@ let table =
     RvFalse)) :: (Body :: []))) } :: ({ e_name =
     (X73 :: (X70 :: (X69 :: (X66 :: (X5f :: (X73 :: (X74 :: (X72 :: (X5f :: (X72 :: (X65 :: (X76 :: (X65 :: (X72 :: (X73 :: (X65 :: []))))))))))))))));
     e_reach = Exported; e_ret = TBool; e_params = (true :: []); e_self =
-    (Some O); e_slots = (S O); e_parsed = true; e_prelude =
-    (Body :: []) } :: ({ e_name =
+    (Some O); e_slots = (S O); e_parsed = true; e_prelude = ((Guard (GAssert,
+    (O :: []), RvFalse)) :: (Body :: [])) } :: ({ e_name =
     (X73 :: (X70 :: (X69 :: (X66 :: (X5f :: (X73 :: (X74 :: (X72 :: (X5f :: (X72 :: (X69 :: (X6e :: (X64 :: (X65 :: (X78 :: [])))))))))))))));
     e_reach = Exported; e_ret = TInt; e_params = (true :: (false :: []));
     e_self = (Some O); e_slots = (S O); e_parsed = true; e_prelude = ((Guard
@@ -2202,9 +2202,7 @@ let table =
     (X73 :: (X70 :: (X69 :: (X66 :: (X5f :: (X6f :: (X62 :: (X6a :: (X70 :: (X61 :: (X69 :: (X72 :: (X5f :: (X64 :: (X75 :: (X70 :: []))))))))))))))));
     e_reach = Exported; e_ret = TPtr; e_params = (true :: []); e_self = (Some
     O); e_slots = (S O); e_parsed = true; e_prelude = ((Guard (GAssert,
-    (O :: []), RvNull)) :: ((Deref O) :: ((Deref O) :: ((Delegate
-    ((X73 :: (X70 :: (X69 :: (X66 :: (X5f :: (X6f :: (X62 :: (X6a :: (X70 :: (X61 :: (X69 :: (X72 :: (X5f :: (X6e :: (X65 :: (X77 :: (X5f :: (X66 :: (X72 :: (X6f :: (X6d :: (X5f :: (X62 :: (X6f :: (X74 :: (X68 :: [])))))))))))))))))))))))))),
-    (None :: (None :: [])), PId)) :: [])))) } :: ({ e_name =
+    (O :: []), RvNull)) :: (Body :: [])) } :: ({ e_name =
     (X73 :: (X70 :: (X69 :: (X66 :: (X5f :: (X6f :: (X62 :: (X6a :: (X70 :: (X61 :: (X69 :: (X72 :: (X5f :: (X74 :: (X79 :: (X70 :: (X65 :: [])))))))))))))))));
     e_reach = Exported; e_ret = TPtr; e_params = (true :: []); e_self = (Some
     O); e_slots = (S O); e_parsed = true; e_prelude = ((Guard (GAssert,
@@ -2927,7 +2925,9 @@ let table =
     (X73 :: (X70 :: (X69 :: (X66 :: (X5f :: (X6c :: (X69 :: (X6e :: (X6b :: (X65 :: (X64 :: (X5f :: (X6c :: (X69 :: (X73 :: (X74 :: (X5f :: (X63 :: (X6f :: (X6d :: (X70 :: [])))))))))))))))))))));
     e_reach = Slot; e_ret = TCmp; e_params = (true :: (true :: [])); e_self =
     (Some O); e_slots = (S (S (S O))); e_parsed = true; e_prelude =
-    ((CompNull (O, (S O))) :: (Body :: [])) } :: ({ e_name =
+    ((CompNull (O, (S O))) :: ((Delegate
+    ((X73 :: (X70 :: (X69 :: (X66 :: (X5f :: (X6f :: (X62 :: (X6a :: (X5f :: (X63 :: (X6f :: (X6d :: (X70 :: []))))))))))))),
+    ((Some O) :: ((Some (S O)) :: [])), PId)) :: [])) } :: ({ e_name =
     (X73 :: (X70 :: (X69 :: (X66 :: (X5f :: (X6c :: (X69 :: (X6e :: (X6b :: (X65 :: (X64 :: (X5f :: (X6c :: (X69 :: (X73 :: (X74 :: (X5f :: (X64 :: (X75 :: (X70 :: []))))))))))))))))))));
     e_reach = Slot; e_ret = TPtr; e_params = (true :: []); e_self = (Some O);
     e_slots = (S O); e_parsed = true; e_prelude = ((Guard (GAssert,
@@ -3732,7 +3732,8 @@ let named_cells =
     O) :: (((X73 :: (X70 :: (X69 :: (X66 :: (X5f :: (X73 :: (X74 :: (X72 :: (X5f :: (X70 :: (X72 :: (X65 :: (X70 :: (X65 :: (X6e :: (X64 :: (X5f :: (X66 :: (X72 :: (X6f :: (X6d :: (X5f :: (X70 :: (X74 :: (X72 :: []))))))))))))))))))))))))),
     O) :: (((X73 :: (X70 :: (X69 :: (X66 :: (X5f :: (X73 :: (X74 :: (X72 :: (X5f :: (X70 :: (X72 :: (X65 :: (X70 :: (X65 :: (X6e :: (X64 :: (X5f :: (X66 :: (X72 :: (X6f :: (X6d :: (X5f :: (X70 :: (X74 :: (X72 :: []))))))))))))))))))))))))),
     (S
-    O)) :: (((X73 :: (X70 :: (X69 :: (X66 :: (X5f :: (X73 :: (X74 :: (X72 :: (X5f :: (X72 :: (X69 :: (X6e :: (X64 :: (X65 :: (X78 :: []))))))))))))))),
+    O)) :: (((X73 :: (X70 :: (X69 :: (X66 :: (X5f :: (X73 :: (X74 :: (X72 :: (X5f :: (X72 :: (X65 :: (X76 :: (X65 :: (X72 :: (X73 :: (X65 :: [])))))))))))))))),
+    O) :: (((X73 :: (X70 :: (X69 :: (X66 :: (X5f :: (X73 :: (X74 :: (X72 :: (X5f :: (X72 :: (X69 :: (X6e :: (X64 :: (X65 :: (X78 :: []))))))))))))))),
     O) :: (((X73 :: (X70 :: (X69 :: (X66 :: (X5f :: (X73 :: (X74 :: (X72 :: (X5f :: (X73 :: (X70 :: (X6c :: (X69 :: (X63 :: (X65 :: []))))))))))))))),
     O) :: (((X73 :: (X70 :: (X69 :: (X66 :: (X5f :: (X73 :: (X74 :: (X72 :: (X5f :: (X73 :: (X70 :: (X6c :: (X69 :: (X63 :: (X65 :: (X5f :: (X66 :: (X72 :: (X6f :: (X6d :: (X5f :: (X70 :: (X74 :: (X72 :: [])))))))))))))))))))))))),
     O) :: (((X73 :: (X70 :: (X69 :: (X66 :: (X5f :: (X73 :: (X74 :: (X72 :: (X5f :: (X73 :: (X70 :: (X72 :: (X69 :: (X6e :: (X74 :: (X66 :: [])))))))))))))))),
@@ -4183,7 +4184,7 @@ let named_cells =
     O) :: (((X6c :: (X69 :: (X62 :: (X61 :: (X73 :: (X74 :: (X5f :: (X70 :: (X72 :: (X69 :: (X6e :: (X74 :: (X5f :: (X65 :: (X72 :: (X72 :: (X6f :: (X72 :: [])))))))))))))))))),
     O) :: (((X6c :: (X69 :: (X62 :: (X61 :: (X73 :: (X74 :: (X5f :: (X70 :: (X72 :: (X69 :: (X6e :: (X74 :: (X5f :: (X77 :: (X61 :: (X72 :: (X6e :: (X69 :: (X6e :: (X67 :: [])))))))))))))))))))),
     O) :: (((X6c :: (X69 :: (X62 :: (X61 :: (X73 :: (X74 :: (X5f :: (X66 :: (X61 :: (X74 :: (X61 :: (X6c :: (X5f :: (X65 :: (X72 :: (X72 :: (X6f :: (X72 :: [])))))))))))))))))),
-    O) :: [])))))))))))))))))))))))))))))))))))))))))))))))))))))))))))))))))))))))))))))))))))))))))))))))))))))))))))))))))))))))))))))))))))))))))))))))))))))))))))))))))))))))))))))))))))))))))))))))))))))))))))))))))))))))))))))))))))))))))))))))))))))))))))))))))))))))))))))))))))))))))))))))))))))))))))))))))))))))))))))))))))))))))))))))))))))))))))))))))))))))))))))))))))))))))))))))))))))))))))))))))))))))))))))))))))))))))
+    O) :: []))))))))))))))))))))))))))))))))))))))))))))))))))))))))))))))))))))))))))))))))))))))))))))))))))))))))))))))))))))))))))))))))))))))))))))))))))))))))))))))))))))))))))))))))))))))))))))))))))))))))))))))))))))))))))))))))))))))))))))))))))))))))))))))))))))))))))))))))))))))))))))))))))))))))))))))))))))))))))))))))))))))))))))))))))))))))))))))))))))))))))))))))))))))))))))))))))))))))))))))))))))))))))))))))))))))))))
 
 (** val exempt : cell list **)
 
@@ -4194,4 +4195,4 @@ let exempt =
 (** val table_digest : fname **)
 
 let table_digest =
-  X61 :: (X36 :: (X33 :: (X35 :: (X66 :: (X36 :: (X35 :: (X31 :: (X38 :: (X38 :: (X30 :: (X64 :: (X63 :: (X61 :: (X66 :: (X36 :: [])))))))))))))))
+  X65 :: (X38 :: (X36 :: (X33 :: (X65 :: (X66 :: (X31 :: (X30 :: (X62 :: (X35 :: (X38 :: (X30 :: (X35 :: (X35 :: (X38 :: (X33 :: [])))))))))))))))
